@@ -1009,3 +1009,64 @@ func (e *Exec) predCall(sf *SpecFunc, sfPkg *types.Package, args []TV, env *Spec
 	}
 	return TV{mk(SBool, name, args[last].T), specBoolT}, true
 }
+
+
+// viewForalls returns the view-quantified conjuncts  forall v in 0..65536 :: B  of a clause.
+func viewForalls(x SExpr) []*SQuant {
+	switch y := x.(type) {
+	case *SBin:
+		if y.Op == "&&" {
+			return append(viewForalls(y.L), viewForalls(y.R)...)
+		}
+	case *SQuant:
+		if y.Forall && y.Type == "" {
+			lo, ok1 := y.Lo.(*SLit)
+			hi, ok2 := y.Hi.(*SLit)
+			if ok1 && ok2 && lo.Val == "0" && hi.Val == "65536" {
+				return []*SQuant{y}
+			}
+		}
+	}
+	return nil
+}
+
+const viewPH = "@V@"
+
+// assumeClause assumes a clause and registers its view-quantified conjuncts for instantiation.
+func (e *Exec) assumeClause(st *State, c Clause, env *SpecEnv) {
+	t := e.specBool(st, c, env)
+	n0 := len(e.assumps)
+	e.assumeTagged(st, t, c.Tag)
+	if c.E == nil || len(e.assumps) == n0 {
+		return
+	}
+	if env == nil {
+		env = e.localEnv(st)
+	}
+	for _, q := range viewForalls(c.E) {
+		if tv, ok := e.tryTr(q.Body, env.with(q.Var, TV{Term{viewPH, SInt}, specInt})); ok && tv.T.Sort == SBool {
+			e.viewFacts = append(e.viewFacts, viewFact{at: n0, pc: st.pc.S, body: tv.T.S})
+		}
+	}
+}
+
+// viewGoalOf: when the clause is exactly one view-quantified formula, its body in instantiable form.
+func (e *Exec) viewGoalOf(c Clause, env *SpecEnv, st *State) string {
+	if c.E == nil {
+		return ""
+	}
+	q, ok := c.E.(*SQuant)
+	if !ok {
+		return ""
+	}
+	if vs := viewForalls(q); len(vs) != 1 {
+		return ""
+	}
+	if env == nil {
+		env = e.localEnv(st)
+	}
+	if tv, ok := e.tryTr(q.Body, env.with(q.Var, TV{Term{viewPH, SInt}, specInt})); ok && tv.T.Sort == SBool {
+		return tv.T.S
+	}
+	return ""
+}
